@@ -2,7 +2,8 @@ import ScyllaVerif.Model.Util
 import ScyllaVerif.Model.Pager
 /-! Line-protocol driver for C07.
 
-Case: `pg <skip 0|1> <eager|slow|drop<k>> <page> <page> ...`, page = `<rows>:<state>:<faults>` with
+Case: `pg|sess <skip 0|1> <eager|slow|drop<k>> <page> <page> ...` (`pg`: single-connection pager,
+`sess`: `Session::execute_iter` on a one-node cluster with the default retry policy), page = `<rows>:<state>:<faults>` with
 state `.` = none (last page), `-` = empty byte string, else hex; faults = letters of
 `Pager.connAttempts` or `-`. Rows are numbered 0,1,2,... across the pages.
 
@@ -38,6 +39,10 @@ def buildPages : Nat → List (Nat × Option PState × List Char) → List Page
 def buildFaults (ps : List (Nat × Option PState × List Char)) : List Attempt :=
   (ps.map fun p => connAttempts false p.2.2).flatten
 
+def buildSessFaults : Bool → List (Nat × Option PState × List Char) → List Attempt
+  | _, [] => []
+  | first, p :: rest => sessAttempts first false false p.2.2 ++ buildSessFaults false rest
+
 def showLog (s : St) : String :=
   if s.log.isEmpty then "-" else ",".intercalate (s.log.map fun e => showState e.2)
 
@@ -67,14 +72,15 @@ def implLog (impl : String) : Option (List String) :=
 
 def run (case impl : String) : String :=
   match words case with
-  | "pg" :: skip :: cons :: pageWords =>
+  | kind :: skip :: cons :: pageWords =>
+    if kind != "pg" && kind != "sess" then "bad-case" else
     if skip != "0" && skip != "1" then "bad-case" else
     match pageWords.mapM parsePage with
     | none => "bad-case"
     | some ps =>
       if ps.isEmpty then "bad-case" else
       let pages := buildPages 0 ps
-      let s0 := init pages (buildFaults ps)
+      let s0 := init pages (if kind == "sess" then buildSessFaults true ps else buildFaults ps)
       let fuel := 4 * measure s0 + 16
       if cons == "eager" || cons == "slow" then
         let s := runEager fuel s0
